@@ -47,6 +47,7 @@ func Run(k *report.Check) {
 	k.Rule = "tables: runs of n keys (n=0..50; the n/2 smallest and n/2 largest) of a 56-key universe (empty, binary, >=0x80, prefix-related keys), tombstone masks exhaustive for n<=8 and single/double beyond, written whole and split with every target size for runs <=12; every universe/probe key looked up, every prefix scanned, again after the descriptor's JSON round trip. WAL: every sequence over put/delete/cut/truncate/rotate+save up to the depth, every legal start marker. non-trivial = distinct (n, tombstone mask, target size) with n>=2, and distinct WAL histories containing a truncate or a second rotate"
 	k.Assumptions = []string{"storage.MemoryFilesystem stands for the file systems; bytes outside the universe not explored", "a WAL start marker is legal when it is >= the largest truncation point and <= the last sequence number (how dkv.DB uses it)"}
 	k.Budget(120, 1200)
+	k.Parts(4)
 	k.Explore("table/whole", mc.Config{}, nil, tableWhole)
 	k.Explore("table/split", mc.Config{}, k.Pick(10, 12), tableSplit)
 	k.Explore("table/bloom-fp", mc.Config{Workers: 1}, nil, bloomFP)
